@@ -34,7 +34,8 @@ def proj_route_c04(i, m):
 
 
 def proj_slash(i, m):
-    return i, m
+    # the two Dispatch observations (p, p/); the two ServeHTTP observations that follow are judged by a verdict
+    return i[:2], m[:2]
 
 
 # ---- disp domain: impl = (seq fresh conc ledger), model = same shape; one observation per request:
